@@ -154,6 +154,9 @@ def snapshot(w):
 def alpha_arg(a):
     if isinstance(a, dict):
         d = fl(a['default'])
+        if a.get('container') == 'dict':
+            # a plain dict that names every cue of the file (the generator guarantees it)
+            return {k: fl(v) for k, v in a.get('map', {}).items()}
         m = defaultdict(lambda: d)
         for k, v in a.get('map', {}).items():
             m[k] = fl(v)
